@@ -118,16 +118,9 @@ theorem w_dw (ws : List Int) (hne : ws ≠ []) : (encodeW ws).1 = ws[0]'(by case
 
 /-! ## (c) ToUnicode: every list of code points -/
 
-/-- The full-strength round trip under the strict §9.10.3 reader. It does NOT hold for the unchanged
-code (see `tounicode_crossing_witness`). -/
-def tounicode_roundtrip_statement : Prop :=
-  ∀ us : List Nat, (∀ u ∈ us, validScalar u = true) →
-    decodeTU (encodeTU us).1 (encodeTU us).2 us.length = us.map some
-
-/-- Round trip for every list of Unicode scalar values whose runs of consecutive values do not step over a
-low-byte boundary `..FF → ..00` of the destination string. -/
-theorem tounicode_roundtrip_partial (us : List Nat) (hv : ∀ u ∈ us, validScalar u = true)
-    (hnc : noCross 0xFFFD (us.map pack) = true) :
+/-- FULL STRENGTH: `decode (encode us) = us` under the strict §9.10.3 reader for every list of Unicode
+scalar values (the builder closes a bfrange before the last byte of its destination would pass 0xFF). -/
+theorem tounicode_roundtrip (us : List Nat) (hv : ∀ u ∈ us, validScalar u = true) :
     decodeTU (encodeTU us).1 (encodeTU us).2 us.length = us.map some := by
   apply List.ext_getElem
   · simp [decodeTU]
@@ -135,39 +128,28 @@ theorem tounicode_roundtrip_partial (us : List Nat) (hv : ∀ u ∈ us, validSca
     have hk : k < us.length := by simpa [decodeTU] using h1
     simp only [decodeTU, List.getElem_map, List.getElem_range]
     rw [tuLookup_eq]
-    have := encodeTUP_spec (us.map pack) hnc (k + 1) (pack us[k]) (noCross_map_validity us k hk)
+    have := encodeTUP_spec (us.map pack) (k + 1) (pack us[k]) (packed_getElem us k hk)
     simp only [encodeTU]
     rw [this]
     exact scalar_pack _ (hv _ (List.getElem_mem hk))
 
 /-- code 0 (`.notdef`) reads U+FFFD -/
-theorem tounicode_notdef (us : List Nat) (hnc : noCross 0xFFFD (us.map pack) = true) :
+theorem tounicode_notdef (us : List Nat) :
     tuLookup (encodeTU us).1 (encodeTU us).2 0 = some 0xFFFD := by
   rw [tuLookup_eq]
-  have := encodeTUP_spec (us.map pack) hnc 0 0xFFFD (by simp)
+  have := encodeTUP_spec (us.map pack) 0 0xFFFD (by simp)
   simp only [encodeTU]
   rw [this]
   decide
 
-/-- Witness of the defect: the glyphs of U+00FF and U+0100 with consecutive subset codes 1, 2 are written
-as `<0001> <0002> <00FF>`, whose last byte would be incremented past 255: code 2 has no defined mapping. -/
-theorem tounicode_crossing_witness :
-    encodeTU [0xFF, 0x100] = ([(1, 2, 0xFF)], [(0, 0xFFFD)]) ∧
-    tuLookup (encodeTU [0xFF, 0x100]).1 (encodeTU [0xFF, 0x100]).2 2 = none := by
+/-- the inputs that used to be written as one range over the `..FF → ..00` step are now split -/
+theorem tounicode_low_byte_split :
+    encodeTU [0xFE, 0xFF, 0x100, 0x101] = ([(1, 2, 0xFE), (3, 4, 0x100)], [(0, 0xFFFD)]) ∧
+    encodeTU [0xFF, 0x100] = ([], [(0, 0xFFFD), (1, 0xFF), (2, 0x100)]) := by
   decide
 
-theorem tounicode_roundtrip_statement_false : ¬ tounicode_roundtrip_statement := by
-  intro h
-  have := h [0xFF, 0x100] (by decide)
-  revert this
+example : decodeTU (encodeTU [0x1F0FF, 0x1F100]).1 (encodeTU [0x1F0FF, 0x1F100]).2 2 = [some 0x1F0FF, some 0x1F100] := by
   decide
-
-/-- the same happens inside the low surrogate of a packed pair (U+1F0FF → U+1F100) -/
-theorem tounicode_crossing_witness_surrogate :
-    tuLookup (encodeTU [0x1F0FF, 0x1F100]).1 (encodeTU [0x1F0FF, 0x1F100]).2 2 = none := by
-  decide
-
-example : noCross 0xFFFD ([72, 101, 108, 109, 0x1F600, 0x1F601].map pack) = true := by decide
 example : decodeTU (encodeTU [72, 101, 108, 109, 0x1F600, 0x1F601]).1 (encodeTU [72, 101, 108, 109, 0x1F600, 0x1F601]).2 6
     = [some 72, some 101, some 108, some 109, some 0x1F600, some 0x1F601] := by decide
 
